@@ -5,6 +5,7 @@ import (
 	"context"
 	"crypto/tls"
 	"fmt"
+	"log"
 	"math/rand"
 	"net"
 	"os"
@@ -29,10 +30,15 @@ import (
 
 func init() { props["C12"] = runC12 }
 
+// plainLog: a Server.Log whose destination is an ordinary bytes.Buffer - not safe for concurrent use, and it need not be:
+// "A Logger ... guarantees to serialize access to the Writer". Everything the Server logs, from whatever goroutine, goes
+// through the one Logger it was given; under the race detector any write that bypasses that Logger's lock shows up.
+func plainLog() *log.Logger { return log.New(&bytes.Buffer{}, "[kmip] ", log.LstdFlags) }
+
 var raceEnabled = false // set by race_on.go under the race build tag
 
 func stressServer(rng *rand.Rand, nConn, nReq int, shutdownAfter time.Duration) (served int, err error) {
-	s := &kmip.Server{ReadTimeout: 2 * time.Second, WriteTimeout: 2 * time.Second}
+	s := &kmip.Server{ReadTimeout: 2 * time.Second, WriteTimeout: 2 * time.Second, Log: plainLog()}
 	s.SessionAuthHandler = func(c net.Conn) (interface{}, error) { return 1, nil }
 	s.RequestAuthHandler = func(sc *kmip.SessionContext, a *kmip.Authentication) (interface{}, error) { return 2, nil }
 	s.Handle(kmip.OPERATION_ACTIVATE, func(ctx *kmip.RequestContext, item *kmip.RequestBatchItem) (interface{}, error) {
@@ -165,7 +171,7 @@ func stressClients(flavour string, n int) error {
 	ca := tlsm.NewCA("c12-clients-ca")
 	scfg := &tls.Config{Certificates: []tls.Certificate{tlsm.Leaf(ca, tlsm.LeafOpts{Host: "127.0.0.1"})}, ClientCAs: ca.Pool}
 	kmip.DefaultServerTLSConfig(scfg)
-	s := &kmip.Server{Addr: freeAddr(), TLSConfig: scfg, ReadTimeout: 5 * time.Second, WriteTimeout: 5 * time.Second}
+	s := &kmip.Server{Addr: freeAddr(), TLSConfig: scfg, ReadTimeout: 5 * time.Second, WriteTimeout: 5 * time.Second, Log: plainLog()}
 	s.Handle(kmip.OPERATION_GET, func(ctx *kmip.RequestContext, item *kmip.RequestBatchItem) (interface{}, error) {
 		rq, _ := item.RequestPayload.(kmip.GetRequest)
 		return kmip.GetResponse{ObjectType: kmip.OBJECT_TYPE_SYMMETRIC_KEY, UniqueIdentifier: rq.UniqueIdentifier}, nil
@@ -248,7 +254,7 @@ func stressHandshakeShutdown(pending int) error {
 	clientCert := tlsm.Leaf(ca, tlsm.LeafOpts{Host: "client.test", Client: true})
 	cfg := &tls.Config{Certificates: []tls.Certificate{serverCert}, ClientCAs: ca.Pool}
 	kmip.DefaultServerTLSConfig(cfg)
-	s := &kmip.Server{TLSConfig: cfg}
+	s := &kmip.Server{TLSConfig: cfg, Log: plainLog()}
 	l := rec.NewListener()
 	init := make(chan struct{})
 	ret := make(chan error, 1)
@@ -336,7 +342,7 @@ func stressHandshakeShutdown(pending int) error {
 // registered and started, some are running, some connections are still queued. Anything a starting session reads from the
 // Server without the lock races with what Shutdown writes under it.
 func stressAcceptBurstShutdown(rng *rand.Rand, nConn int) error {
-	s := &kmip.Server{}
+	s := &kmip.Server{Log: plainLog()}
 	l := rec.NewListener()
 	init := make(chan struct{})
 	ret := make(chan error, 1)
@@ -448,7 +454,7 @@ func runC12(r *Result, d *drv.Driver, tier string, seed int64, replay string) {
 	if tier == "thorough" {
 		rounds, nConn, nReq, codecN = 40, 24, 60, 2000
 	}
-	r.Rule = fmt.Sprintf("the real library under Go's race detector (kvrun built with -race=%v): %d rounds of %d concurrent sessions x %d two-item requests (auth callbacks, a panicking handler, the built-in Discover Versions) with Shutdown issued at a random moment; the same number of rounds of 8 connections sending their first requests simultaneously to a zero-value Server (no Handle, no callbacks); the same number of rounds of a TLS-serving Server shut down while one session is established and 1..3 accepted connections have not begun their handshake; 8x that number of rounds of Shutdown issued while a burst of 8 connections is being accepted; the same number of rounds of 8 independent Clients in parallel against a TLS Server (Connect, DiscoverVersions, Send, Close; each with its own tls.Config, or all handed one config prepared by DefaultClientTLSConfig, or one config the caller filled in by hand); "+
+	r.Rule = fmt.Sprintf("the real library under Go's race detector (kvrun built with -race=%v): %d rounds of %d concurrent sessions x %d two-item requests (auth callbacks, a panicking handler, the built-in Discover Versions) with Shutdown issued at a random moment (every Server of these workloads, the zero-value one excepted, logs through a log.Logger over a plain bytes.Buffer); the same number of rounds of 8 connections sending their first requests simultaneously to a zero-value Server (no Handle, no callbacks); the same number of rounds of a TLS-serving Server shut down while one session is established and 1..3 accepted connections have not begun their handshake; 8x that number of rounds of Shutdown issued while a burst of 8 connections is being accepted; the same number of rounds of 8 independent Clients in parallel against a TLS Server (Connect, DiscoverVersions, Send, Close; each with its own tls.Config, or all handed one config prepared by DefaultClientTLSConfig, or one config the caller filled in by hand); "+
 		"16 goroutines encoding/decoding overlapping types through independent Encoders/Decoders; the C11 schedule replays and a batch of C07 session scripts, all in one process. Every detector report is a finding. distinct = one per workload round", raceEnabled, rounds, nConn, nReq)
 	rng := rand.New(rand.NewSource(seed))
 	total := 0
